@@ -154,8 +154,12 @@ pub fn stub_nl(lat: f64) -> i32 {
 /// so (k_0, YZ_0, e_0, k_1, YZ_1, e_1) are drawn and constrained to describe the same u. Every u has
 /// such a representation, so quantifying over representations covers every latitude.
 fn draw_lat() -> (i32, u32, u32) {
+    draw_lat_in(-16, 15)
+}
+/// latitudes whose even-frame zone index is in klo..=khi (each zone is 6 degrees)
+fn draw_lat_in(klo: i32, khi: i32) -> (i32, u32, u32) {
     let (k0, k1) = (any_i32(), any_i32());
-    assume(k0 >= -16 && k0 <= 15 && k1 >= -16 && k1 <= 15);
+    assume(k0 >= klo && k0 <= khi && k1 >= -16 && k1 <= 15);
     let (yz0, yz1) = (any_below(1 << 17) as i32, any_below(1 << 17) as i32);
     let (e0, e1) = (any_i32(), any_i32());
     assume(e0 >= -118 && e0 < 118 && e1 >= -120 && e1 < 120);
@@ -166,7 +170,10 @@ fn draw_lat() -> (i32, u32, u32) {
 }
 
 fn lat_decode(parity: u32) {
-    let (u, yz0, yz1) = draw_lat();
+    lat_decode_in(parity, -16, 15)
+}
+fn lat_decode_in(parity: u32, klo: i32, khi: i32) {
+    let (u, yz0, yz1) = draw_lat_in(klo, khi);
     let got = cpr_location(&[yz0, yz1], &[40000, 90000], parity, 1);
     let truth = u as f64 * (360.0 / KLAT as f64);
     let bin = 360.0 / 59.0 / 131072.0;
@@ -193,7 +200,7 @@ fn lat_decode(parity: u32) {
     }
 }
 
-// @harness props=C08 tier=quick cap=2400 needs=kfmod
+// @harness props=C08 tier=thorough cap=14400 needs=kfmod
 // latitude recovery for every latitude in 87S..87N (2 cm resolution), even frame newer; zone count stubbed constant
 #[cfg_attr(kani, kani::proof)]
 #[cfg_attr(kani, kani::unwind(60))]
@@ -203,7 +210,7 @@ fn c08_lat_decode_even_newer() {
     lat_decode(0);
 }
 
-// @harness props=C08 tier=quick cap=2400 needs=kfmod
+// @harness props=C08 tier=thorough cap=14400 needs=kfmod
 // latitude recovery for every latitude in 87S..87N, odd frame newer (inexact 360/59 products)
 #[cfg_attr(kani, kani::proof)]
 #[cfg_attr(kani, kani::unwind(60))]
@@ -242,3 +249,19 @@ fn c08_zone_rule() {
         let _ = got;
     }
 }
+
+macro_rules! lat_cell {
+    ($name:ident, $k:expr, $p:expr) => {
+        #[cfg_attr(kani, kani::proof)]
+        #[cfg_attr(kani, kani::unwind(60))]
+        #[cfg_attr(kani, kani::stub(crate::decoder::adsb::position::nl, stub_nl))]
+        #[cfg_attr(verif_replay, test)]
+        fn $name() {
+            lat_decode_in($p, $k, $k);
+        }
+    };
+}
+// @harness name=exp_lat_cell_k8_even props=EXP tier=quick cap=1800 needs=kfmod
+lat_cell!(exp_lat_cell_k8_even, 8, 0);
+// @harness name=exp_lat_cell_km3_odd props=EXP tier=quick cap=1800 needs=kfmod
+lat_cell!(exp_lat_cell_km3_odd, -3, 1);
